@@ -37,6 +37,18 @@ import (
 // C16Kinds are the upstream kinds of the C16 workload.
 var C16Kinds = []string{"tcp", "tcp+tls", "ws", "udp"}
 
+// C16Secret is the pre-shared key of the "udp+secret" kind (a KCP endpoint whose datagrams are AES-encrypted).
+const C16Secret = "c16-shared-secret"
+
+func c16IsUDP(kind string) bool { return kind == "udp" || kind == "udp+secret" }
+
+func c16UDPURL(kind, hostport string) string {
+	if kind == "udp+secret" {
+		return "udp://u:" + C16Secret + "@" + hostport
+	}
+	return "udp://" + hostport
+}
+
 // C16Banner pads a name to the 8 bytes every C16 target sends first on an accepted connection.
 func C16Banner(name string) []byte { return []byte(fmt.Sprintf("%-8.8s", name)) }
 
@@ -133,7 +145,7 @@ func NewC16Endpoint(kind, name string, withCert bool) (*C16Endpoint, error) {
 	e.Target = t
 	var lastErr error
 	for attempt := 0; attempt < 8; attempt++ {
-		e.SrvAddr = fmt.Sprintf("127.0.0.1:%d", FreePort(kind == "udp"))
+		e.SrvAddr = fmt.Sprintf("127.0.0.1:%d", FreePort(c16IsUDP(kind)))
 		lastErr = e.StartServer()
 		if lastErr == nil || !isBindErr(lastErr) {
 			break
@@ -143,7 +155,7 @@ func NewC16Endpoint(kind, name string, withCert bool) (*C16Endpoint, error) {
 		e.Close()
 		return nil, fmt.Errorf("c16 endpoint %s/%s: %v", kind, name, lastErr)
 	}
-	if kind == "udp" {
+	if c16IsUDP(kind) {
 		e.UDPRelay, err = NewUDPRelay(e.SrvAddr)
 	} else {
 		e.Relay, err = NewRelay("tcp", e.SrvAddr, "")
@@ -182,9 +194,9 @@ func (e *C16Endpoint) StartServer() error {
 		s.Address, s.ServerConfig = addr.MustParseAddress("http://"+e.SrvAddr), cfg
 		s.Endpoints = server.WebsocketEndpointList{{Endpoint: "/ws/all"}}
 		srv = s
-	case "udp":
+	case "udp", "udp+secret":
 		s := server.NewPacketServer()
-		s.Address, s.ServerConfig = addr.MustParseAddress("udp://"+e.SrvAddr), cfg
+		s.Address, s.ServerConfig = addr.MustParseAddress(c16UDPURL(e.Kind, e.SrvAddr)), cfg
 		srv = s
 	default:
 		return fmt.Errorf("c16: unknown kind %q", e.Kind)
@@ -271,8 +283,8 @@ func (e *C16Endpoint) URL() string {
 	switch e.Kind {
 	case "ws":
 		return "http://" + C16SpellHost(e.Relay.Addr, e.Host) + "/ws/all"
-	case "udp":
-		return "udp://" + C16SpellHost(e.UDPRelay.Addr, e.Host)
+	case "udp", "udp+secret":
+		return c16UDPURL(e.Kind, C16SpellHost(e.UDPRelay.Addr, e.Host))
 	}
 	return e.Kind + "://" + C16SpellHost(e.Relay.Addr, e.Host)
 }
